@@ -238,7 +238,7 @@ PROPS["C14"] = dict(
          "drives fragmentation prevention; non-trivial = >=2 chunks; distinct = (deduped, new, withheld, global, #chunks bucket)",
     assumptions=SESSION_ASSUMPTIONS + ["Prometheus counters are not read"],
     jobs=session_jobs(),
-    gates=dict(evaluations=(800, 40000), distinct=(15, 40), counters={"files_with_fragmentation_prevention": (30, 1000), "sessions_with_xorb_uploads": (300, 15000), "sessions_checked": (400, 20000)}),
+    gates=dict(evaluations=(800, 40000), distinct=(15, 40), counters={"files_with_fragmentation_prevention": (30, 1000), "sessions_with_xorb_uploads": (300, 15000), "sessions_checked": (400, 20000), "fully_dedupable_files_with_withheld_chunks": (30, 1000)}),
 )
 
 PROPS["C15"] = dict(
